@@ -233,6 +233,21 @@ def check_C10(tier: str, v: Verdict):
         outb, resb, exc = run_evaluate(pb, rb, cfg)
         attach_b(rec, "same", outb, resb, exc, {"transform": "crop-shared-margins"})
         recs.append(rec)
+    # near ties: two competing candidates whose scores differ by less than 4e-4 - the better one must win in
+    # every orientation of the arrays (the component numbering, hence any tie-break by label, flips with them)
+    for _ in range(8 if tier == "quick" else 80):
+        pred, ref = gen.near_tie_pair(rng)
+        cfg = default_cfg(input=rng.choice(["SEM", "SEM", "UNM"]), matcher="naive", mm="IOU", thr=[1, 4], im=["DSC", "IOU", "RVD"], gm=["DSC"])
+        base = rec_evaluate(pred, ref, cfg, meta={"gen": "near-tie"})
+        fl = [("flip-all", lambda a: np.flip(a)), ("flip-last", lambda a: np.flip(a, axis=-1))]
+        if pred.ndim == 2:
+            fl.append(("transpose", lambda a: np.ascontiguousarray(a.T)))
+        for name, f in fl:
+            rec = dict(base)
+            rec["meta"] = dict(base["meta"])
+            outb, resb, exc = run_evaluate(f(pred.astype(np.uint8)), f(ref.astype(np.uint8)), cfg)
+            attach_b(rec, "same", outb, resb, exc, {"transform": name})
+            recs.append(rec)
     # instance counts at the dtype boundary of the instance maps (255 / 256 / 257 components): which
     # component is numbered last depends on the scan order, which flips and permutations change
     for k in ((255, 256, 257) if tier == "thorough" else (256,)):
